@@ -167,14 +167,16 @@ static std::string run_case(const CaseFile &c) {
             // and by the whole-block comparison after close / abort).
             bool other = d.blocks[0].loops.size() > 1;
             int kind = (int) (s.a % (other ? 6 : 3));
+            if (scalar && s.b % 4 == 0) kind = 6;     // a second scalar loop for the block (the iterated loop is its scalar loop)
             cif_loop_tp *oh = nullptr;
-            if (kind >= 3 && cif_container_get_item_loop(blk, u"_other1", &oh) != CIF_OK) FAILMSG(at + "cannot get a handle on the other loop");
+            if (kind >= 3 && kind <= 5 && cif_container_get_item_loop(blk, u"_other1", &oh) != CIF_OK) FAILMSG(at + "cannot get a handle on the other loop");
             int want2 = 0; const char *what = "";
             if (kind == 0) { cif_container_tp *nb = nullptr; rc = cif_create_block(cif, (const UChar *) d.blocks[0].code.c_str(), &nb); if (nb) cif_container_free(nb); want = CIF_DUP_BLOCKCODE; what = "cif_create_block(existing code)"; }
             else if (kind == 1) { rc = cif_container_set_value(blk, u"no_underscore", nullptr); want = CIF_INVALID_ITEMNAME; what = "cif_container_set_value(invalid name)"; }
             else if (kind == 2) { UChar *nn[] = {(UChar *) u"_brand_new", (UChar *) ml.names[(size_t) s.b % ml.names.size()].c_str(), nullptr}; cif_loop_tp *nl = nullptr; rc = cif_container_create_loop(blk, u"newcat", nn, &nl); if (nl) cif_loop_free(nl); want = CIF_DUP_ITEMNAME; what = "cif_container_create_loop(a name already in the container, second position)"; }
             else if (kind == 3) { rc = cif_loop_add_item(oh, u"_other2", nullptr); want = CIF_DUP_ITEMNAME; what = "cif_loop_add_item(existing name)"; }
             else if (kind == 4) { cif_packet_tp *fp = nullptr; UChar *fn[] = {(UChar *) u"_other1", (UChar *) u"_nowhere", nullptr}; if (cif_packet_create(&fp, fn) != CIF_OK) { cif_loop_free(oh); FAILMSG(at + "packet_create"); } rc = cif_loop_add_packet(oh, fp); cif_packet_free(fp); want = CIF_WRONG_LOOP; what = "cif_loop_add_packet(packet naming a foreign item last)"; }
+            else if (kind == 6) { UChar *nn[] = {(UChar *) u"_second_scalar", nullptr}; cif_loop_tp *nl = nullptr; rc = cif_container_create_loop(blk, u"", nn, &nl); if (nl) cif_loop_free(nl); want = CIF_RESERVED_LOOP; what = "cif_container_create_loop(a second scalar loop)"; }
             else { cif_pktitr_tp *it2 = nullptr; rc = cif_loop_get_packets(oh, &it2); if (rc == CIF_OK) { label("second-iterator-granted"); (void) cif_pktitr_close(it2); } want = rc == CIF_OK ? CIF_OK : CIF_ERROR; want2 = CIF_MISUSE; what = "cif_loop_get_packets(another loop)"; }
             if (oh) cif_loop_free(oh);
             label(std::string("elsewhere:") + what);
@@ -247,6 +249,18 @@ followup:
             int want = (!scalar || cur.empty()) ? CIF_OK : CIF_RESERVED_LOOP;
             if (rc != want) FAILMSG(std::string("afterwards adding a packet to the ") + (scalar ? "scalar " : "") + "loop (holding " + std::to_string(cur.size()) + " packet(s)) returned " + cm::code_name(rc) + ", expected " + cm::code_name(want));
             if (rc == CIF_OK) cur.push_back(std::vector<Value>(ml.names.size(), Value::unk()));
+        }
+        if (d.blocks[0].loops.size() > 1) {
+            // ... and so does the block's other loop, which the iterator never touched (its packet numbering must not have been disturbed)
+            cif_loop_tp *oh = nullptr; cif_packet_tp *p = nullptr; UChar *on[] = {(UChar *) u"_other1", (UChar *) u"_other2", nullptr};
+            if (cif_container_get_item_loop(blk, u"_other1", &oh) != CIF_OK || cif_packet_create(&p, on) != CIF_OK) { if (oh) cif_loop_free(oh); FAILMSG("follow-up on the other loop: cannot prepare"); }
+            for (int round = 0; round < 2; round++) {
+                rc = cif_loop_add_packet(oh, p);
+                if (rc != CIF_OK) { cif_packet_free(p); cif_loop_free(oh); FAILMSG(std::string("afterwards adding a packet to the block's OTHER loop returned ") + cm::code_name(rc)); }
+            }
+            cif_packet_free(p);
+            Loop got; rc = cm::dump_loop(oh, got); cif_loop_free(oh);
+            if (rc != CIF_OK || got.rows.size() != d.blocks[0].loops[1].rows.size() + 2) FAILMSG("afterwards the block's other loop holds " + std::to_string(got.rows.size()) + " packets, expected " + std::to_string(d.blocks[0].loops[1].rows.size() + 2));
         }
         cif_pktitr_tp *it2 = nullptr;
         rc = cif_loop_get_packets(lh, &it2);
